@@ -58,6 +58,7 @@ where
 {
     pq: &'a mut DoublePriorityQueue<I, P, H>,
     pos: usize,
+    back: usize,
 }
 
 #[cfg(not(feature = "std"))]
@@ -67,6 +68,7 @@ where
 {
     pq: &'a mut DoublePriorityQueue<I, P, H>,
     pos: usize,
+    back: usize,
 }
 
 impl<'a, I: 'a, P: 'a, H: 'a> IterMut<'a, I, P, H>
@@ -74,7 +76,8 @@ where
     P: Ord,
 {
     pub(crate) fn new(pq: &'a mut DoublePriorityQueue<I, P, H>) -> Self {
-        IterMut { pq, pos: 0 }
+        let back = pq.store.map.len();
+        IterMut { pq, pos: 0, back }
     }
 }
 
@@ -86,6 +89,9 @@ where
     type Item = (&'a mut I, &'a mut P);
     fn next(&mut self) -> Option<Self::Item> {
         use indexmap::map::MutableKeys;
+        if self.pos >= self.back {
+            return None;
+        }
         let r: Option<(&'a mut I, &'a mut P)> = self
             .pq
             .store
@@ -96,6 +102,11 @@ where
         self.pos += 1;
         r
     }
+
+    fn size_hint(&self) -> (usize, Option<usize>) {
+        let len = self.back - self.pos;
+        (len, Some(len))
+    }
 }
 
 impl<'a, I: 'a, P: 'a, H: 'a> DoubleEndedIterator for IterMut<'a, I, P, H>
@@ -105,15 +116,16 @@ where
 {
     fn next_back(&mut self) -> Option<Self::Item> {
         use indexmap::map::MutableKeys;
-        let r: Option<(&'a mut I, &'a mut P)> = self
-            .pq
+        if self.pos >= self.back {
+            return None;
+        }
+        self.back -= 1;
+        self.pq
             .store
             .map
-            .get_index_mut2(self.pos)
+            .get_index_mut2(self.back)
             .map(|(i, p)| (i as *mut I, p as *mut P))
-            .map(|(i, p)| unsafe { (i.as_mut().unwrap(), p.as_mut().unwrap()) });
-        self.pos -= 1;
-        r
+            .map(|(i, p)| unsafe { (i.as_mut().unwrap(), p.as_mut().unwrap()) })
     }
 }
 
@@ -123,7 +135,7 @@ where
     H: BuildHasher,
 {
     fn len(&self) -> usize {
-        self.pq.len()
+        self.back - self.pos
     }
 }
 
